@@ -22,6 +22,13 @@ for sid in sorted(os.listdir(os.path.join(ROOT, "seeded"))):
                 "Seed 1 – ", "Seed 2 – ", "Seed 3 – "):
         change = change.replace(pre, "")
     rows.append(f"| {sid} | {change[:110]} | {'; '.join(det).replace('|', '/')} |")
-print("| seed | change (see seeded/<id>/NOTE.md) | outcome of the checks (quick tier, seed 0) |")
-print("|---|---|---|")
-print("\n".join(rows))
+table = ("| seed | change (see seeded/<id>/NOTE.md) | outcome of the checks (quick tier, seed 0) |\n|---|---|---|\n"
+         + "\n".join(rows))
+import sys
+if "--design" in sys.argv:
+    p = os.path.join(ROOT, "DESIGN.md")
+    d = open(p).read()
+    a, b = d.index("<!-- SEEDTABLE:BEGIN -->"), d.index("<!-- SEEDTABLE:END -->")
+    open(p, "w").write(d[:a] + "<!-- SEEDTABLE:BEGIN -->\n" + table + "\n" + d[b:])
+else:
+    print(table)
